@@ -2,13 +2,18 @@ package main
 
 import (
 	"bytes"
+	"context"
 	"fmt"
 	"os"
 	"os/exec"
 	"path/filepath"
 	"regexp"
 	"runtime/debug"
+	"strconv"
 	"strings"
+	"sync"
+	"sync/atomic"
+	"time"
 
 	"github.com/cybergarage/go-redis/redis/proto"
 	"verif/gen"
@@ -179,7 +184,133 @@ func panicFrame(st string) string {
 	return "?"
 }
 
+// c06concurrent: parsers are independent of each other - a server has one per connection, all running at once, and
+// "never aborts the process" has to hold for the process. A FRESH process (`vcheck c06-concurrent`) releases 16
+// goroutines together, 256 times, each with its own parser over hostile streams (every possible first byte, then
+// generated hostile streams); anything the parsers share and write (a cache, a pool, a table filled on first use)
+// is hit while it is still cold. Verdict: the process must end by itself with status 0 (a runtime "fatal error:
+// concurrent map ..." cannot be recovered and kills it).
+func c06concurrent(idx, k int) run.Result {
+	var res run.Result
+	res.Idx = idx
+	res.Classes = []string{"concurrent-parsers"}
+	res.Key = gen.Hash64([]byte(fmt.Sprint("concurrent", k)))
+	res.NonTrivial = true
+	sconn.NextSeq()
+	self, err := os.Executable()
+	if err != nil {
+		res.Inconclusive = "own executable unknown"
+		return res
+	}
+	ctx, cancel := context.WithTimeout(context.Background(), 150*time.Second)
+	defer cancel()
+	cmd := exec.CommandContext(ctx, self, "c06-concurrent", fmt.Sprint(c06.seed), fmt.Sprint(k))
+	var stderr bytes.Buffer
+	cmd.Stderr = &stderr
+	done := make(chan struct{})
+	go func() {
+		for {
+			select {
+			case <-done:
+				return
+			case <-time.After(500 * time.Millisecond):
+				sconn.NextSeq()
+			}
+		}
+	}()
+	out, runErr := cmd.Output()
+	close(done)
+	if ctx.Err() != nil {
+		res.Inconclusive = "watchdog: the concurrent-parsers process did not finish"
+		return res
+	}
+	var parsed int64
+	fmt.Sscanf(string(out), "PARSED %d", &parsed)
+	res.Count("streams_parsed_concurrently", parsed)
+	if runErr != nil || parsed == 0 {
+		first := firstLineOf(stderr.String(), "fatal error:", "panic:", "PANIC")
+		res.Violate("C06:concurrent-parsers:"+clipS(first, 60), "reading never panics or aborts the process (16 parsers over hostile streams at the same time, in a fresh process)", fmt.Sprintf("the process ended with %v: %s", runErr, clipS(stderr.String(), 1500)), map[string]any{"class": "concurrent-parsers", "k": k})
+	}
+	return res
+}
+
+// c06ConcurrentMain: `vcheck c06-concurrent <seed> <k>`.
+func c06ConcurrentMain(args []string) int {
+	if len(args) < 2 {
+		return 2
+	}
+	seed, _ := strconv.ParseUint(args[0], 10, 64)
+	k, _ := strconv.Atoi(args[1])
+	c06.seed, c06.tier = seed, "quick"
+	c06.exh = gen.Exhaustive()
+	c06.fixed = c06fixed()
+	c06.nRand = 60000
+	r := rng.New(seed, rng.Str("C06conc"), uint64(k))
+	// the hostile streams every goroutine goes through after its first-byte stream (bounded in size)
+	var pool [][]byte
+	for len(pool) < 40 {
+		c := c06get(r.Intn(len(c06.fixed) + c06.nRand))
+		if len(c.Stream) <= 1<<16 {
+			pool = append(pool, c.Stream)
+		}
+	}
+	order := make([]int, 256)
+	for i := range order {
+		order[i] = i
+	}
+	for i := len(order) - 1; i > 0; i-- {
+		j := r.Intn(i + 1)
+		order[i], order[j] = order[j], order[i]
+	}
+	var parsed, panics int64
+	var firstPanic atomic.Value
+	for _, b := range order {
+		start := make(chan struct{})
+		var wg sync.WaitGroup
+		for g := 0; g < 16; g++ {
+			wg.Add(1)
+			go func(g int) {
+				defer wg.Done()
+				<-start
+				streams := [][]byte{{byte(b), 'x', '\r', '\n'}, {'*', '1', '\r', '\n', byte(b), '\r', '\n'}}
+				for i := 0; i < 6; i++ {
+					streams = append(streams, pool[(g*7+i*3+b)%len(pool)])
+				}
+				for _, st := range streams {
+					func() {
+						defer func() {
+							if p := recover(); p != nil {
+								atomic.AddInt64(&panics, 1)
+								firstPanic.CompareAndSwap(nil, fmt.Sprint(p))
+							}
+						}()
+						p := proto.NewParserWithBytes(st)
+						for n := 0; n < 1<<20; n++ {
+							m, err := p.Next()
+							if err != nil || m == nil {
+								break
+							}
+						}
+						atomic.AddInt64(&parsed, 1)
+					}()
+				}
+			}(g)
+		}
+		close(start)
+		wg.Wait()
+	}
+	if panics > 0 {
+		fmt.Fprintf(os.Stderr, "PANIC in %d parses, first: %v\n", panics, firstPanic.Load())
+		return 3
+	}
+	fmt.Printf("PARSED %d\n", parsed)
+	return 0
+}
+
 func c06run(idx int) run.Result {
+	if base := len(c06.fixed) + c06.nRand; idx >= base {
+		return c06concurrent(idx, idx-base)
+	}
 	var res run.Result
 	res.Idx = idx
 	c := c06get(idx)
@@ -200,10 +331,11 @@ func c06run(idx int) run.Result {
 }
 
 func init() {
+	extra["c06-concurrent"] = c06ConcurrentMain
 	run.Register(&run.Prop{
 		ID: "C06", Level: "exploration",
 		Rule: func(tier string) string {
-			return "case = one hostile byte stream (<=1 MiB) read to its end with Parser.Next() over a scripted reader, in a child process under RLIMIT_AS=4GiB: every length/count prefix of 10 base streams replaced by each of 22 boundary digit strings; bomb headers at top level, inside a command and nested; truncation at every offset (whole and 1-byte delivery); every single byte; every string <=3 over the structural alphabet; nesting to 262000 levels; 200000-wide arrays; then seeded random stacked mutations of valid streams and a near-valid grammar; finally Go's native coverage-guided fuzzer (go test -fuzz, corpus seeded with 14 streams, budget counted in executions: 300000 quick / 30000000 thorough) with the same oracle. Oracle: no panic (recover), no process death (exit status), no array with absent elements, termination. distinct = hash of stream+chunking; non-trivial = the stream is not a single valid value"
+			return "case = one hostile byte stream (<=1 MiB) read to its end with Parser.Next() over a scripted reader, in a child process under RLIMIT_AS=4GiB: every length/count prefix of 10 base streams replaced by each of 22 boundary digit strings; bomb headers at top level, inside a command and nested; truncation at every offset (whole and 1-byte delivery); every single byte; every string <=3 over the structural alphabet; nesting to 262000 levels; 200000-wide arrays; then seeded random stacked mutations of valid streams and a near-valid grammar; 6 (thorough: 120) fresh processes in which 16 goroutines, released together 256 times, each run their own parser over every possible first byte and over generated hostile streams (a runtime fatal error - concurrent map access in something the parsers share - cannot be recovered: the process must end with status 0); finally Go's native coverage-guided fuzzer (go test -fuzz, corpus seeded with 14 streams, budget counted in executions: 300000 quick / 30000000 thorough) with the same oracle. Oracle: no panic (recover), no process death (exit status), no array with absent elements, termination. distinct = hash of stream+chunking; non-trivial = the stream is not a single valid value"
 		},
 		Assumptions: []string{"'never aborts the process' is decided for inputs <=1 MiB under a 4 GiB address-space limit"},
 		Setup: func(tier string, seed uint64) int {
@@ -211,10 +343,13 @@ func init() {
 			c06.exh = gen.Exhaustive()
 			c06.fixed = c06fixed()
 			c06.nRand = map[string]int{"quick": 60000, "thorough": 10000000}[tier]
-			return len(c06.fixed) + c06.nRand
+			return len(c06.fixed) + c06.nRand + map[string]int{"quick": 6, "thorough": 120}[tier]
 		},
 		Run: c06run,
 		Describe: func(idx int) any {
+			if idx >= len(c06.fixed)+c06.nRand {
+				return map[string]any{"class": "concurrent-parsers"}
+			}
 			c := c06get(idx)
 			return map[string]any{"class": c.Class, "stream_hex": hexClip(c.Stream, 200), "len": len(c.Stream), "chunk": c.Chunk}
 		},
